@@ -205,6 +205,9 @@ pub fn c11(tier: &str, seed: u64) -> i32 {
         letters.push(Letter { kind: L_PUT, map: mi, handle: H_PARAMS, key: 1, val: 1 - mi % 2 });
     }
     letters.push(Letter { kind: L_DB_SYNC_ALL, map: 0, handle: 0, key: 0, val: 0 });
+    // two handles of one map inside one call: put_from_iter on a handle, fed by the iterator of its clone
+    letters.push(Letter { kind: L_PFI_ALIAS, map: 0, handle: H_FIRST, key: 0, val: 0 });
+    letters.push(Letter { kind: L_PFI_ALIAS, map: 4, handle: H_LOOKUP, key: 0, val: 0 });
     let cfg = BCfg {
         prop: "C11".into(),
         maps,
@@ -294,6 +297,8 @@ fn c12_sweep(payload: &[u8], io: &mut WorkerIo) -> Vec<u8> {
             Some(crate::engine_a::value_bytes(7, ei as u64, 3, old.len().saturating_sub(1))),
             Some(Vec::new()),
             None,
+            // a value of 20 000 bytes (three-byte length field), only for every 8th entry
+            if ei % 8 == 0 { Some(crate::engine_a::value_bytes(7, ei as u64, 4, 20_000)) } else { Some(Vec::new()) },
         ];
         for (vi, nv) in variants.iter().enumerate() {
             evals += 1;
